@@ -4,6 +4,7 @@ From Coq Require Import List NArith ZArith Bool.
 From Coq Require Import Sorted.
 From Gluon Require Import Model.SeqSet Proofs.SeqSetProofs.
 From Gluon Require Import Gen.FactsUidRange Proofs.UidRangeCodeProofs.
+From Gluon Require Import Gen.FactsInterval Proofs.IntervalCodeProofs.
 From Gluon Require Model.Responders Model.Session Proofs.SetProofs.
 Import ListNotations.
 Open Scope N_scope.
@@ -90,6 +91,22 @@ Theorem C16_seq_interval_model_is_translated_code : forall cnt lo hi, 1 <= lo ->
        then None else Some (interval_list lo hi).
 Proof. exact seq_interval_by_code. Qed.
 Print Assumptions C16_seq_interval_model_is_translated_code.
+
+(* T1: the normalisation of one written range a:b (either order, `*` on either side) in the model is the loop body of
+   resolveSeqInterval and of resolveUIDInterval, translated from the Go source by symbolic execution (Gen/FactsInterval.v):
+   for every resolver and every pair of parsed numbers both translated bodies yield the model's interval. *)
+Theorem C16_interval_model_is_translated_code : forall code, code = seq_interval_code \/ code = uid_interval_code ->
+  forall (r : pnum -> N) b e, pnz b -> pnz e ->
+  code (resZ r) seqnum_asterisk_value (enc b) (enc e) = pairZ (resolve_interval r (b, e)).
+Proof. exact interval_code_is_model. Qed.
+Print Assumptions C16_interval_model_is_translated_code.
+
+Example C16_interval_code_example :
+  seq_interval_code (resZ (resolve_seq 5)) seqnum_asterisk_value (enc PStar) (enc (PNum 7)) = (7, 7)%Z /\
+  seq_interval_code (resZ (resolve_seq 5)) seqnum_asterisk_value (enc (PNum 4)) (enc (PNum 2)) = (2, 4)%Z /\
+  uid_interval_code (resZ (resolve_uid [2;5;6;9])) seqnum_asterisk_value (enc (PNum 3)) (enc PStar) = (3, 9)%Z /\
+  pnz (PNum 7) /\ pnz PStar.
+Proof. vm_compute. repeat split; discriminate. Qed.
 
 Example C16_translated_code_example :
   uid_range_by_code [2;5;6;9] 3 6 = Some [5;6] /\ uid_range_by_code [2;5;6;9] 3 100 = Some [5;6;9] /\
